@@ -246,11 +246,13 @@ class NDNApp:
         node = self._int_tree.setdefault(node_name, InterestTreeNode())
         node.append_interest(future, interest_param, implicit_sha256)
         self.face.send(raw_interest)
-        return self._wait_for_data(future, interest_param.lifetime, node_name, node, validator, need_raw_packet)
+        # The lifetime starts when the Interest is sent, not when the returned coroutine is first awaited
+        deadline = timestamp() + (100 if interest_param.lifetime is None else interest_param.lifetime)
+        return self._wait_for_data(future, deadline, node_name, node, validator, need_raw_packet)
 
-    async def _wait_for_data(self, future: aio.Future, lifetime: int, node_name: FormalName,
+    async def _wait_for_data(self, future: aio.Future, deadline: int, node_name: FormalName,
                              node: InterestTreeNode, validator: Validator, need_raw_packet: bool):
-        lifetime = 100 if lifetime is None else lifetime
+        lifetime = max(0, deadline - timestamp())
         try:
             data_name, meta_info, content, sig, raw_packet = await aio.wait_for(future, timeout=lifetime/1000.0)
         except TimeoutError:
